@@ -193,6 +193,21 @@ RMixFrom(terms, i, acc) == IF i > Len(terms) THEN acc
 RMix(terms) == Val("u64", RMixFrom(terms, 1, Zero(64)))
 
 (***************************************************************************)
+(* "Functions marked `extern` use the C ABI ... possible to call them from *)
+(* C", on the generated IR: every foreign instance and every `extern fn`   *)
+(* is declared / defined with the C calling convention, every call         *)
+(* instruction that names it uses the C calling convention, and what C     *)
+(* defines (foreign) or must be able to call (`pub extern`) is externally  *)
+(* visible.  (external = FALSE: visibility is not this rule's business.)   *)
+(***************************************************************************)
+RECURSIVE AbiOfFns(_, _), AbiOfForeign(_, _)
+AbiOfFns(fs, i) == IF i > Len(fs) THEN <<>>
+                   ELSE (IF "ext" \in DOMAIN fs[i] /\ fs[i].ext THEN <<[name |-> fs[i].name, cc |-> "ccc", external |-> fs[i].pub]>> ELSE <<>>)
+                        \o AbiOfFns(fs, i + 1)
+AbiOfForeign(fs, i) == IF i > Len(fs) THEN <<>> ELSE <<[name |-> fs[i].name, cc |-> "ccc", external |-> TRUE]>> \o AbiOfForeign(fs, i + 1)
+AbiRule(p) == AbiOfFns(p.fns, 1) \o AbiOfForeign(p.foreign, 1)
+
+(***************************************************************************)
 (* Static rule cells.                                                      *)
 (***************************************************************************)
 \* types that the documentation lists for `extern` signatures (element / pointee types of views and pointers likewise)
